@@ -667,6 +667,7 @@ type program struct {
 	nOrig int // leaves with index >= nOrig were introduced by the shrinker and are literals in the partial variant
 	vals  []Value
 	only  *expr // when set, only the leaves this expression uses become parameters / locals
+	force bool  // every variant starts with "zz_ = 0", which makes the compiler run its propagation pass over the whole function
 }
 
 func leavesOf(e *expr, used map[int]bool) {
@@ -732,6 +733,9 @@ func (pg *program) source(variant int) (string, []Value, []string) {
 		}
 	}
 	sb.WriteString(") {\n")
+	if pg.force {
+		sb.WriteString("zz_ = 0\n")
+	}
 	if variant == vLocals {
 		for k := range pg.p.leaves {
 			if used == nil || used[k] {
@@ -764,6 +768,8 @@ func staticCheck(o outcome) string {
 		return "static_uninitialized_check"
 	case strings.Contains(o.err, "duplicate case value"):
 		return "static_duplicate_case_check"
+	case strings.HasPrefix(normErr(o.err), "regex: "): // an invalid literal pattern is diagnosed when the function is compiled
+		return "static_regex_check"
 	}
 	return ""
 }
@@ -784,7 +790,7 @@ type verdict struct {
 func (pg *program) deadOperandError(want string) (string, bool) {
 	var found string
 	throws := func(e *expr) bool {
-		sub := &program{p: &prog{leaves: pg.p.leaves}, body: exprBody(e, pg.trace), trace: pg.trace, nOrig: pg.nOrig, vals: pg.vals}
+		sub := &program{p: &prog{leaves: pg.p.leaves}, body: exprBody(e, pg.trace), trace: pg.trace, nOrig: pg.nOrig, vals: pg.vals, force: pg.force}
 		src, args, _ := sub.source(vRun)
 		o := run(src, args)
 		if o.err != "" && !o.compile && normErr(o.err) == want {
@@ -939,7 +945,7 @@ func rootOp(e *expr) string {
 // replaced by the literal of their run-time value while the disagreement stays.
 func (pg *program) shrink(e *expr, variant int) (*expr, verdict, bool) {
 	fails := func(x *expr) (verdict, bool) {
-		sub := &program{p: pg.p, body: exprBody(x, pg.trace), trace: pg.trace, mask: pg.mask, nOrig: pg.nOrig, vals: pg.vals, only: x}
+		sub := &program{p: pg.p, body: exprBody(x, pg.trace), trace: pg.trace, mask: pg.mask, nOrig: pg.nOrig, vals: pg.vals, only: x, force: pg.force}
 		sub.p = &prog{leaves: pg.p.leaves, roots: []*expr{x}}
 		var ref outcome
 		v := sub.judge(variant, &ref)
@@ -979,7 +985,7 @@ func (pg *program) shrink(e *expr, variant int) (*expr, verdict, bool) {
 		if k.op == "leaf" || k.op == "traced" {
 			continue
 		}
-		sub := &program{p: &prog{leaves: pg.p.leaves, roots: []*expr{k}}, body: exprBody(k, false), nOrig: pg.nOrig, vals: pg.vals}
+		sub := &program{p: &prog{leaves: pg.p.leaves, roots: []*expr{k}}, body: exprBody(k, false), nOrig: pg.nOrig, vals: pg.vals, force: pg.force}
 		if exprUsesTrace(k) {
 			continue
 		}
@@ -1054,6 +1060,10 @@ func TestVerifC30(t *testing.T) {
 			rep.Count("programs_with_traced_operands", 1)
 		}
 		pg.mask = r.Uint32()
+		pg.force = r.IntN(2) == 0
+		if pg.force {
+			rep.Count("programs_with_forced_propagation_pass", 1)
+		}
 		pg.nOrig = len(pg.p.leaves)
 		for o := range pg.p.ops {
 			rep.Seen("operators", o)
@@ -1111,13 +1121,22 @@ func TestVerifC30(t *testing.T) {
 			op := kind
 			final := v
 			shrunk := false
-			if sp == nil {
-				if m, mv, ok := pg.shrink(pg.p.roots[0], variant); ok {
-					final, op, shrunk = mv, rootOp(m), true
+			wasForced := pg.force
+			for attempt := 0; attempt < 2 && !shrunk; attempt++ {
+				if attempt == 1 {
+					if pg.force {
+						break
+					}
+					pg.force = true // the disagreement may need the propagation pass that another statement switched on
 				}
-			} else {
+				if sp == nil {
+					if m, mv, ok := pg.shrink(pg.p.roots[0], variant); ok {
+						final, op, shrunk = mv, rootOp(m), true
+					}
+					continue
+				}
 				for pi := range sp.parts {
-					one := &program{p: pg.p, body: sp.bodyOf(sp.parts[pi]), trace: pg.trace, mask: pg.mask, nOrig: pg.nOrig, vals: pg.vals}
+					one := &program{p: pg.p, body: sp.bodyOf(sp.parts[pi]), trace: pg.trace, mask: pg.mask, nOrig: pg.nOrig, vals: pg.vals, force: pg.force}
 					var oref outcome
 					ov := one.judge(variant, &oref)
 					pg.vals = one.vals
@@ -1134,6 +1153,7 @@ func TestVerifC30(t *testing.T) {
 					break
 				}
 			}
+			pg.force = wasForced
 			if shrunk {
 				rep.Count("violations_shrunk", 1)
 			}
